@@ -20,7 +20,9 @@ type verifRollWorld struct {
 	// finalizeAnswers (by spec value x) enables a finalize hook that returns the
 	// same children as the sync hook and finalized = finalizeAnswers[x]
 	finalizeAnswers map[string]bool
-	nested          bool // revisioned value lives at spec.template.v, revision history = [spec.template]
+	requireReady    bool // children must carry status condition Ready=True to count as healthy
+	nested          bool
+	global          string // nested mode: value of the NON-revisioned field spec.x // revisioned value lives at spec.template.v, revision history = [spec.template]
 	replicas   int  // 0 = all names
 	gensel     bool
 	w          *env.World
@@ -39,7 +41,9 @@ type verifRollWorld struct {
 func verifRollHook(r *verifRollWorld) *verifHook {
 	return &verifHook{enabled: true, fn: func(req *v1.CompositeHookRequest) (*v1.CompositeHookResponse, error) {
 		x, _, _ := unstructured.NestedString(req.Parent.Object, "spec", "x")
+		g := ""
 		if r.nested {
+			g = x
 			x, _, _ = unstructured.NestedString(req.Parent.Object, "spec", "template", "v")
 		}
 		// spec.n (when present) is the replica count: the first n names are desired
@@ -49,7 +53,11 @@ func verifRollHook(r *verifRollWorld) *verifHook {
 		}
 		var kids []*unstructured.Unstructured
 		for _, n := range want {
-			kids = append(kids, r.child(n, x))
+			c := r.child(n, x)
+			if r.nested {
+				c.Object["data"].(map[string]interface{})["g"] = g
+			}
+			kids = append(kids, c)
 		}
 		return &v1.CompositeHookResponse{Children: kids, Status: map[string]interface{}{"phase": "ok"}}, nil
 	}}
@@ -116,6 +124,9 @@ func (r *verifRollWorld) spec(x string) map[string]interface{} {
 	tmpl := map[string]interface{}{}
 	if r.nested {
 		sp["x"] = "not-revisioned"
+		if r.global != "" {
+			sp["x"] = r.global
+		}
 		tmpl["v"] = x
 	}
 	if r.replicas > 0 {
@@ -143,6 +154,10 @@ func (r *verifRollWorld) newPC() {
 		ParentRes:  r.parentRes, GenerateSelector: r.gensel,
 		Children: []verifChildRule{{Res: r.childRes, Strategy: verifStrategyOf(r.method)}},
 		Sync:     verifRollHook(r),
+	}
+	if r.requireReady {
+		tr := "True"
+		cfg.Children[0].Strategy.StatusChecks = v1alpha1.ChildUpdateStatusChecks{Conditions: []v1alpha1.StatusConditionCheck{{Type: "Ready", Status: &tr}}}
 	}
 	if r.finalizeAnswers != nil {
 		inner := verifRollHook(r)
